@@ -461,31 +461,40 @@ class Conn:
         return {ACCEPT}
 
     def recv_push_verdict(self, parent, promised):
-        cls = self.classify(parent)
-        st = self.get(parent)
         if not self.client:
             return {C(P)}
         if not self.local_enable_push:
             return {C(P)}
+        cls = self.classify(parent)
+        st = self.get(parent)
+        bad = set()
+        if promised % 2 or promised <= self.hi_peer:
+            # a promised id the peer may not use (C09): PROTOCOL_ERROR, or by how that id was closed
+            bad = {C(P)}
+            pst = self.get(promised)
+            if pst is not None and pst.state == CLOSED:
+                if pst.closed_by in ('send-rst', 'recv-rst'):
+                    bad |= {('refuse-promise',)}
+                else:
+                    bad |= {C(SC)}
         if cls in ('idle', 'implicit'):
             return {C(P)}
         if parent % 2 == 0 or not st.local:
             # a push on a pushed stream violates the protocol whatever happened to that stream
-            out = {C(P)}
+            base = {C(P)}
             if st.state == CLOSED and st.closed_by == 'send-rst':
-                out |= {('refuse-promise',), IGNORE}
-            return out
-        if st.state == CLOSED and st.closed_by == 'send-rst':
-            return {('refuse-promise',), IGNORE}
-        if st.state == CLOSED:
-            return {C(P), C(SC)}
-        if parent % 2 == 0 or not st.local:
-            return {C(P)}
-        if promised % 2 or promised <= self.hi_peer:
-            return {C(P)}
-        if st.state in (OPEN, HC_LOCAL):
-            return {ACCEPT}
-        return {C(P), C(SC)}
+                base |= {('refuse-promise',), IGNORE}
+        elif st.state == CLOSED and st.closed_by == 'send-rst':
+            base = {('refuse-promise',), IGNORE}
+        elif st.state == CLOSED:
+            base = {C(P), C(SC)}
+        elif st.state in (OPEN, HC_LOCAL):
+            base = {ACCEPT}
+        else:
+            base = {C(P), C(SC)}
+        if bad:
+            return (base - {ACCEPT}) | bad
+        return base
 
     def apply_recv_push(self, parent, promised):
         st = self.streams[promised] = Stream(promised, local=False, pushed=True)
